@@ -26,7 +26,7 @@ R = {
     "C08-r7m1": ("missed", "C08 block [I] graph history prior_plain: plain backward (retain_graph) first, then the recording pass that is judged, every requires-grad subset"),
     "C08-r7m2": ("missed", "NOT YET COVERED: right-hand side whose autograd graph differs between evaluations (Python branch on t), smaller graph at the end of the time span"),
     "C09-r7m1": ("detected", "-"), "C09-r7m2": ("detected", "-"),
-    "C10-r7m1": ("missed", "NOT YET COVERED: two PureFunction wrappers active at the same time (backward pass of one functional running inside a substitution of another wrapper) after a re-assignment"),
+    "C10-r7m1": ('missed', 'C10 re-assignment search with inside=True: the backward pass (after the owner re-assigned an attribute) runs while a substitution of an unrelated PureFunction wrapper is active (nested use, e.g. inside the function evaluation of an outer functional)'),
     "C10-r7m2": ('missed', 'C09 / C10 kind multi_em2_em: sibling of two objects whose FIRST parent declares two names for one tensor (crash search, protocol search and re-assignment search)'),
     "C11-r7m1": ("detected", "-"),
     "C11-r7m2": ("missed", "C11: the left scalar factor is 0.3 (not representable in single precision) instead of the dyadic 0.5"),
@@ -44,7 +44,7 @@ R = {
     "C18-r7m2": ('missed by C18, detected by C14 (in-place history plane: one object, sample buffers of different batch shape)', '- (the change sits in Interp1D.__call__, anchored in C14)'),
     "C19-r7m1": ('missed', 'C19 variant nondiff: one parameter (or the initial state) is a tensor that does not require grad; quad, rootfinder, equilibrium, minimize, solve_ivp, mcquad'),
     "C19-r7m2": ("missed by C19 (bounded retention: one extra tensor after a failed call, no growth)", "- (same change as C13-r7m2; C10's crash-point enumeration is the check for it)"),
-    "C20-r7m1": ("missed", "NOT YET COVERED: a CONTAINER (list / dict / object) referenced from two parents (C20's alias classes are tensors shared between slots, containers are trees)"),
+    "C20-r7m1": ('missed', 'C20 shared-container cases: a list / dict / object holding one tensor referenced from two places of a list / dict / object and followed by 1 or 2 further tensors; every later slot must hold the tensor supplied for its position (unique and non-unique, list and flat interface)'),
     "C20-r7m2": ('missed', 'C20 scripted reshape histories: one Packer used before and after the shape of a packed tensor is changed in place (t_(), unsqueeze_(), .data assignment): the second listing, construction with the new shapes, rejection of the old shapes; 4 structures x unique x interface x alias'),
 }
 
